@@ -17,6 +17,10 @@ THEOREMS = [
     "Vinegar.C09.decodeFields_rfcShape",
     "Vinegar.C09.requestPort_non_rrq",
     "Vinegar.C09.c09Check_runTransfer",
+    "Vinegar.C09.processDatagramF_noRaise",
+    "Vinegar.C09.dispatchCallsF_noRaise",
+    "Vinegar.C09.handlerFailed_only_when_asked",
+    "Vinegar.C09.dispatchCallsF_failing_no_handle",
     "Vinegar.C09.peer_error_silent",
     "Vinegar.C09.invalid_packet_one_error",
     "Vinegar.C09.foreign_gets_error5",
